@@ -18,6 +18,7 @@ from pathlib import Path
 
 import lib
 from translate import formatre as tr_formatre
+from translate import formatattrs as tr_formatattrs
 
 PROP = "C17"
 
@@ -303,8 +304,31 @@ FERR_KINDS = [
 FORMAT_LINT = {"FUnusedNumbered", "FUnusedNamed"}
 
 
+def enc_fobj(o):
+    if isinstance(o, bool):
+        return f"B {int(o)}"
+    if isinstance(o, int):
+        return f"I {o}"
+    if isinstance(o, float):
+        return "F"
+    if isinstance(o, complex):
+        return "C"
+    if isinstance(o, str):
+        return "S " + enc_codes(o)
+    if isinstance(o, bytes):
+        return "Y " + enc_codes(o)
+    if o is None:
+        return "N"
+    if isinstance(o, (tuple, list)):
+        return f"Q {int(isinstance(o, list))} {len(o)} " + " ".join(enc_fobj(x) for x in o)
+    if isinstance(o, dict) and all(type(k) in (str, int) for k in o):
+        return f"D {len(o)} " + " ".join((("S " + enc_codes(k)) if isinstance(k, str) else f"I {k}") + " " + enc_fobj(v) for k, v in o.items())
+    return "U"
+
+
 def enc_format_case(t, args, kwargs):
-    return f"F {enc_codes(t)} {len(args)} {len(kwargs)} " + " ".join(enc_codes(k) for k in kwargs)
+    return (f"F {enc_codes(t)} {len(args)} " + " ".join(enc_fobj(x) for x in args) + f" {len(kwargs)} "
+            + " ".join(enc_codes(k) + " " + enc_fobj(v) for k, v in kwargs.items()))
 
 
 def s_field(f):
@@ -360,6 +384,8 @@ def impl_format(t, args, kwargs):
 
 
 def cpython_format(t, args, kwargs):
+    if not safe_for_cpython(t):
+        return ("skipped", "")
     try:
         r = t.format(*args, **kwargs)
         return ("ok", type(r).__name__)
@@ -375,14 +401,15 @@ FORMAT_CLAUSE_DIRECTIONS = {
 
 
 def guards_format(t, m):
+    """Clauses evaluated by the model on CPython's field tree (nopath / plain); when CPython's
+    parser rejects the template the clause is decided on pyanalyze's own field list."""
     g = set()
     if m.get("mix") == "1":
         g.add("C17-format-auto-manual-mix")
     fields = [] if m.get("fields") in (None, "none") else m["fields"].split(";")
-    pyf = [] if m.get("pyparse") in (None, "none", "RAISE", "FUEL") else m["pyparse"].split(";")
-    if any(f.split("/")[1] for f in fields + pyf):
+    if m.get("nopath") == "0" or (m.get("nopath") == "?" and any(f.split("/")[1] for f in fields)):
         g.add("C17-format-field-path")
-    if ":" in t or "!" in t:
+    if m.get("plain") == "0" or (m.get("plain") == "?" and (":" in t or "!" in t)):
         g.add("C17-format-spec-not-validated")
     return g
 
@@ -396,35 +423,68 @@ def exhaustive_format_templates(maxlen):
             yield "".join(tup)
 
 
-F_ARG_POOL = [1, "s", 2.5, [1, 2], {"k": 1}, 1j, None, True, (1, 2), b"x"]
+F_ATOMS = [None, True, False, 0, 1, -1, 2, 255, 256, 300, 0.0, 1.5, 1j, "", "a", "ab", b"", b"a"]
+F_CONTAINERS = [(1, 2), [1, "a"], (), [], {"k": 1}, {"a": "x", 0: 5}, ((1, 2), "ab"), [[0], {"k": [1]}], {"k": (1, "a")}]
+F_ARG_POOL = F_ATOMS + F_CONTAINERS
+F_PATHS = [".real", ".imag", ".numerator", ".denominator", ".upper", ".nope", ".__doc__", "[0]", "[1]", "[5]", "[k]", "[a]", "[-1]",
+           "[0][1]", "[k][0]", ".real.imag", "[0].real", ".a.b", ".", "[", "[0]x", ".1", "[]", "[٣]"]
+SPEC_ALPHABET = "<=^05,_.dsxcefn%#+z b"
+
+
+def gen_spec_text(rng):
+    r = rng.random()
+    if r < 0.3:
+        return ""
+    if r < 0.45:
+        return "".join(rng.choice(SPEC_ALPHABET) for _ in range(rng.choice([1, 2, 3, 4])))
+    fill = rng.choice(["", "", "<", ">", "^", "=", "*<", "0>", "x=", "0="])
+    sign = rng.choice(["", "", "", "+", "-", " "])
+    z = rng.choice(["", "", "", "", "z"])
+    alt = rng.choice(["", "", "", "#"])
+    zero = rng.choice(["", "", "0"])
+    width = rng.choice(["", "", "5", "12", "{}", "{w}", "99999999999999999999"])
+    grp = rng.choice(["", "", "", ",", "_", ",_", "_,"])
+    prec = rng.choice(["", "", ".2", ".0", ".", ".{}", ".99999999999999999999"])
+    typ = rng.choice(["", "", "d", "s", "x", "X", "o", "b", "c", "e", "f", "g", "n", "%", "E", "q", "dd"])
+    return fill + sign + z + alt + zero + width + grp + prec + typ
 
 
 def gen_format_structured(rng):
     nfields = rng.choice([0, 1, 1, 2, 2, 3])
     parts = []
-    mode = rng.choice(["auto", "manual", "named", "mixed"])
+    mode = rng.choice(["auto", "auto", "manual", "named", "mixed"])
     for i in range(nfields):
         parts.append(rng.choice(["", "", "a", " ", "{{", "}}", "x="]))
         m = mode if mode != "mixed" else rng.choice(["auto", "manual", "named"])
         if m == "auto":
             name = ""
         elif m == "manual":
-            name = str(rng.choice([0, 0, 1, 2, 3, 10]))
+            name = str(rng.choice([0, 0, 0, 1, 1, 2, 3, 10]))
         else:
-            name = rng.choice(["a", "b", "w", "zz", "a b", "0a"])
-        path = ""
-        if rng.random() < 0.25:
-            path = rng.choice([".real", "[0]", ".nope", "[k]", ".a.b", "[0][1]", ".", "[", "[0]x", ".1"])
-        conv = rng.choice(["", "", "", "!r", "!s", "!a", "!x", "!"])
-        spec = rng.choice(["", "", "", ":", ":>5", ":{}", ":{w}", ":d", ":{:{}}", ":{0}", ":5.2f", ":{{"])
-        close = "" if rng.random() < 0.04 else "}"
+            name = rng.choice(["a", "a", "b", "w", "zz", "a b", "0a"])
+        path = rng.choice(F_PATHS) if rng.random() < 0.3 else ""
+        conv = rng.choice(["", "", "", "", "!r", "!s", "!a", "!x", "!"])
+        spec = gen_spec_text(rng)
+        if spec or rng.random() < 0.1:
+            spec = ":" + spec
+        close = "" if rng.random() < 0.03 else "}"
         parts.append("{" + name + path + conv + spec + close)
-    parts.append(rng.choice(["", "", "z", "}", "{", "}}"]) if rng.random() < 0.3 else "")
+    parts.append(rng.choice(["", "", "z", "}", "{", "}}"]) if rng.random() < 0.2 else "")
     t = "".join(parts)
-    nargs = rng.choice([0, 1, 1, 2, 3])
-    args = [rng.choice(F_ARG_POOL) for _ in range(nargs)]
+    nargs = rng.choice([0, 1, 1, 2, 2, 3])
+    args = [rng.choice(F_ARG_POOL if rng.random() < 0.7 else [1, 5, 2, "a", 1.5]) for _ in range(nargs)]
     kwargs = {k: rng.choice(F_ARG_POOL) for k in rng.sample(["a", "b", "w", "zz"], rng.choice([0, 0, 1, 2]))}
     return t, args, kwargs
+
+
+SPEC_OBJECTS = [1, -1, 300, True, 1.5, 1j, "a", None, [1], b"a"]
+
+
+def exhaustive_spec_cases(maxlen):
+    """'{:<spec>}' for every spec over SPEC_ALPHABET up to maxlen, against each kind of object."""
+    for n in range(1, maxlen + 1):
+        for tup in itertools.product(SPEC_ALPHABET, repeat=n):
+            yield "{:" + "".join(tup) + "}"
 
 # ---------------------------------------------------------------------------
 # generators
@@ -567,7 +627,7 @@ def safe_args(t, a):
 
 
 def gen_files():
-    return {"FormatRe.v": tr_formatre.translate(str(lib.REPO))}
+    return {"FormatRe.v": tr_formatre.translate(str(lib.REPO)), "FormatAttrs.v": tr_formatattrs.translate()}
 
 
 def load_corpus():
@@ -633,51 +693,347 @@ def src_literal(o):
     return repr(o)
 
 
+REVEAL_RE = None
+
+
+def revealed(msg):
+    """('literal', value) | ('type', name) from a reveal_type diagnostic"""
+    import ast as _ast
+    import re as _re
+
+    m = _re.search(r"Revealed type is '(.*)' \(code: reveal_type\)", msg, _re.S)
+    if not m:
+        return ("unparsed", msg[:80])
+    txt = m.group(1)
+    if txt.startswith("Literal[") and txt.endswith("]"):
+        try:
+            return ("literal", _ast.literal_eval(txt[8:-1]))
+        except Exception:
+            return ("unparsed", txt[:80])
+    return ("type", txt)
+
+
+def case_expr(c):
+    if c[0] == "percent":
+        a = src_literal(c[2])
+        if a is None:
+            return None
+        if isinstance(c[2], (tuple, dict)):
+            return f"{c[1]!r} % {a}"
+        return f"{c[1]!r} % ({a})"
+    if c[0] == "format":
+        parts = [src_literal(x) for x in c[2]] + [f"{k}={src_literal(v)}" for k, v in c[3].items()]
+        if any(p is None or p.endswith("=None") and False for p in parts):
+            return None
+        return f"{c[1]!r}.format({', '.join(parts)})"
+    return c[1]  # fstring: already source text
+
+
 def end_to_end(cases, direct):
-    """Run a sample of the cases through the real checker (NameCheckVisitor on a
-    module with one statement per case) and compare 'reported at all' with the
-    direct calls.  Returns (n_checked, mismatches)."""
+    """Run a sample of the cases through the real checker (NameCheckVisitor on a module with one
+    `reveal_type(<expr>)` statement per case).  Checks (a) 'reported at all' against the direct
+    calls, (b) the revealed type against the value obtained by really evaluating the expression
+    (a Literal must be equal to it, a type must be its type).
+    Returns (n_statements, report mismatches, n_types_checked, type mismatches)."""
     import io
     import contextlib
     from pyanalyze.test_name_check_visitor import TestNameCheckVisitorBase
     from pyanalyze.error_code import ErrorCode
 
-    lines = ["def f():"]
+    lines = ["from typing_extensions import reveal_type", "def f():"]
     index = {}
     for ci, c in cases:
-        if c[0] == "percent":
-            a = src_literal(c[2])
-            if a is None:
-                continue
-            if isinstance(c[2], tuple) or isinstance(c[2], dict):
-                expr = f"{c[1]!r} % {a}"
-            else:
-                expr = f"{c[1]!r} % ({a})"
-        else:
-            parts = [src_literal(x) for x in c[2]] + [f"{k}={src_literal(v)}" for k, v in c[3].items()]
-            if any(p is None or p.endswith("=None") and False for p in parts):
-                continue
-            expr = f"{c[1]!r}.format({', '.join(parts)})"
-        if "\n" in expr:
+        expr = case_expr(c)
+        if expr is None or "\n" in expr:
             continue
-        lines.append(f"    _ = {expr}")
-        index[len(lines)] = ci
+        if c[0] != "fstring" and not (safe_for_cpython(c[1]) and (c[0] != "percent" or safe_args(c[1], c[2]))):
+            continue
+        lines.append(f"    reveal_type({expr})")
+        index[len(lines)] = (ci, expr, c[0])
     code = "\n".join(lines) + "\n"
     buf = io.StringIO()
     with contextlib.redirect_stderr(buf), contextlib.redirect_stdout(buf):
         errs = TestNameCheckVisitorBase()._run_str(code, fail_after_first=False, settings={ErrorCode.use_fstrings: False, ErrorCode.duplicate_dict_key: False})
     by_line = {}
     for e in errs:
-        by_line.setdefault(e["lineno"], []).append(e["code"].name)
+        by_line.setdefault(e["lineno"], []).append(e)
     mismatches = []
-    for ln, ci in index.items():
-        codes = by_line.get(ln, [])
-        want = direct[ci]
-        got = any(c in ("bad_format_string", "incompatible_call") for c in codes)
-        other = [c for c in codes if c not in ("bad_format_string", "incompatible_call")]
-        if got != want or other:
-            mismatches.append((ci, lines[ln - 1].strip(), codes, want))
-    return len(index), mismatches
+    type_mismatches = []
+    types_checked = 0
+    for ln, (ci, expr, kind) in index.items():
+        es = by_line.get(ln, [])
+        codes = [e["code"].name for e in es if e["code"].name != "reveal_type"]
+        if kind != "fstring":
+            want = direct[ci]
+            got = any(c in ("bad_format_string", "incompatible_call") for c in codes)
+            other = [c for c in codes if c not in ("bad_format_string", "incompatible_call")]
+            if got != want or other:
+                mismatches.append((ci, expr, codes, want))
+        rv = [revealed(e["message"]) for e in es if e["code"].name == "reveal_type"]
+        try:
+            actual = eval(expr, {})  # the oracle: CPython itself
+        except Exception:
+            continue
+        types_checked += 1
+        if len(rv) != 1:
+            type_mismatches.append((ci, expr, rv, repr(actual)[:60]))
+        elif rv[0][0] == "literal":
+            if type(rv[0][1]) is not type(actual) or rv[0][1] != actual:
+                type_mismatches.append((ci, expr, rv, repr(actual)[:60]))
+        elif rv[0][0] != "type" or rv[0][1] != type(actual).__name__:
+            type_mismatches.append((ci, expr, rv, repr(actual)[:60]))
+    return len(index), mismatches, types_checked, type_mismatches
+
+
+def gen_fstring(rng):
+    """f-string source with literal operands (JoinedStr / FormattedValue)."""
+    parts = []
+    for _ in range(rng.choice([1, 1, 2, 3])):
+        parts.append(rng.choice(["", "a", " ", "{{", "}}", "x="]))
+        v = rng.choice([1, -1, 255, True, None, 1.5, "s", "ab", [1, 2], (1,), 1j])
+        conv = rng.choice(["", "", "", "!r", "!s", "!a"])
+        spec = rng.choice(["", "", "", ":>5", ":d", ":5.2f", ":x", ":{3}", ":>{5}", ":s", ":,", ":%", ":c", ":#x", ":05"])
+        parts.append("{" + repr(v) + conv + spec + "}")
+    body = "".join(parts)
+    if "'" in body and '"' in body:
+        body = body.replace('"', "'")
+    q = '"' if "'" in body else "'"
+    src = "f" + q + body + q
+    try:
+        compile(src, "<f>", "eval")
+    except SyntaxError:
+        return None
+    return src
+
+
+def make_cases(tier, rng, stream):
+    """The generated streams.  `stream` = 'main' (everything that is not sharded) or
+    ('pct', k, n) / ('fmt', k, n) / ('spec', k, n): shard k of n of an exhaustive enumeration."""
+    cases = []
+    scan_args = [(), (1,), {"a": 1}, 1]
+    fargs = [([], {}), ([1], {}), ([1, "s"], {}), ([1], {"a": 2}), ([], {"a": [1, 2]})]
+    if stream == "main":
+        for c in load_corpus():
+            c = dec_case(c)
+            if c.get("kind", "percent") == "percent":
+                cases.append(("percent", c["template"], c["args"], True))
+            else:
+                cases.append(("format", c["template"], c["args"], c["kwargs"]))
+        for _ in range(8000 if tier == "quick" else 60000):
+            t, a = gen_structured(rng)
+            cases.append(("percent", t, a, True))
+        for _ in range(6000 if tier == "quick" else 80000):
+            t = random_template_chars(rng, rng.choice([4, 5, 6, 7, 8, 10]))
+            a = rng.choice(scan_args + [(1, 1), {"a": 1, "b": "x"}])
+            if rng.random() < 0.25:
+                try:
+                    t = t.encode("ascii")
+                except UnicodeEncodeError:
+                    pass
+            cases.append(("percent", t, a, True))
+        for _ in range(10000 if tier == "quick" else 100000):
+            t, args, kwargs = gen_format_structured(rng)
+            cases.append(("format", t, args, kwargs))
+        for _ in range(3000 if tier == "quick" else 40000):
+            t = "".join(rng.choice(F_ALPHABET * 2 + " 1b٣\n") for _ in range(rng.choice([5, 6, 7, 8, 10])))
+            args, kwargs = rng.choice(fargs)
+            cases.append(("format", t, args, kwargs))
+        return cases
+    kind, k, n = stream
+    if kind == "pct":
+        maxlen = 4 if tier == "quick" else 6
+        for i, t in enumerate(exhaustive_templates(maxlen)):
+            if i % n != k:
+                continue
+            cases.append(("percent", t, scan_args[i % 4], False))
+            if len(t) <= 5:
+                cases.append(("percent", t.encode("ascii"), scan_args[(i + 1) % 4], False))
+    elif kind == "fmt":
+        maxlen = 4 if tier == "quick" else 6
+        for i, t in enumerate(exhaustive_format_templates(maxlen)):
+            if i % n != k:
+                continue
+            args, kwargs = fargs[i % len(fargs)]
+            cases.append(("format", t, args, kwargs))
+    else:
+        maxlen = 2 if tier == "quick" else 4
+        for i, t in enumerate(exhaustive_spec_cases(maxlen)):
+            if i % n != k:
+                continue
+            for j, o in enumerate(SPEC_OBJECTS):
+                if tier == "thorough" and maxlen == 4 and len(t) == 7 and (i + j) % 3:
+                    continue
+                cases.append(("format", t, [o], {}))
+    return cases
+
+
+def _bump(d, k, n=1):
+    d[k] = d.get(k, 0) + n
+
+
+def merge_hist(a, b):
+    for k, v in b.items():
+        if isinstance(v, dict):
+            merge_hist(a.setdefault(k, {}), v)
+        else:
+            a[k] = a.get(k, 0) + v
+
+
+def payload_of(c):
+    if c[0] == "percent":
+        return {"kind": "percent", "template": enc_case(c[1]), "args": enc_case(c[2]), "python": f"{c[1]!r} % {c[2]!r}"}
+    return {"kind": "format", "template": c[1], "args": enc_case(list(c[2])), "kwargs": enc_case(dict(c[3])),
+            "python": f"{c[1]!r}.format(*{c[2]!r}, **{c[3]!r})"}
+
+
+def evaluate(cases, exe, known_ids, keep_direct=False):
+    """Model, implementation and CPython on the same cases.  Returns aggregated results
+    (picklable: used from worker processes in the thorough tier)."""
+    out = {"n": len(cases), "validated": 0, "spec_validated": 0, "type_checked": 0, "distinct": 0,
+           "corr": [], "n_corr": 0, "spec": [], "n_spec": 0, "new": [], "n_new": 0, "known": {}, "direct": {},
+           "hist": {"percent": {"verdicts": {}, "args_kind": {}, "template_len": {}, "is_bytes": {}},
+                    "format": {"verdicts": {}, "structural_verdicts": {}, "full_verdicts": {}, "template_len": {}},
+                    "lint_only": 0}}
+    model_lines = None
+    if exe is not None:
+        model_lines = lib.ocaml_run(exe, [enc_percent_case(c[1], c[2]) if c[0] == "percent" else enc_format_case(c[1], c[2], c[3]) for c in cases], timeout=3000)
+    hist = out["hist"]
+    seen = set()
+    for i, c in enumerate(cases):
+        kind, t = c[0], c[1]
+        ml = model_lines[i] if model_lines is not None else None
+        m = model_fields(ml) if ml is not None else None
+        agrees = ml is not None
+        if kind == "percent":
+            a = c[2]
+            is_bytes = isinstance(t, bytes)
+            impl_line, lint, acc, typ = impl_percent(t, a)
+            py = cpython_percent(t, a) if safe_for_cpython(t) and safe_args(t, a) else ("skipped", "")
+            h = hist["percent"]
+            _bump(h["is_bytes"], int(is_bytes))
+            _bump(h["template_len"], min(len(t), 12))
+            _bump(h["args_kind"], "tuple" if isinstance(a, tuple) else "dict" if isinstance(a, dict) else "scalar")
+            if ml is not None:
+                if impl_line != ml.split(" pyscan=")[0]:
+                    agrees = False
+                    out["n_corr"] += 1
+                    if len(out["corr"]) < 3:
+                        out["corr"].append((payload_of(c), impl_line, ml, "Format.Percent.pa_check_chars vs PercentFormatString.from_pattern/lint/accept"))
+                else:
+                    out["validated"] += 1
+                if py[0] in ("ok", "raise") and m.get("pyraises") is not None:
+                    if (py[0] == "raise") != (m["pyraises"] == "1"):
+                        out["n_spec"] += 1
+                        if len(out["spec"]) < 3:
+                            out["spec"].append((payload_of(c)["python"], py, ml))
+                    else:
+                        out["spec_validated"] += 1
+            if lint is None:
+                out["n_new"] += 1
+                if len(out["new"]) < 10:
+                    out["new"].append((payload_of(c), "checker crashed: " + impl_line, py))
+                continue
+            kinds = set(lint) | set(acc)
+            documented = set(DOCUMENTED_LINT)
+            if "LCombine" in kinds and not combine_justified(m):
+                # the documented rule is about mixing specifiers that need a mapping with ones that
+                # take a positional argument; a report without such a mix is not covered by it
+                documented.discard("LCombine")
+            nontrivial = "%" in (t.decode("latin-1") if is_bytes else t)
+            g = guards_percent(t, a, m) if m is not None else set()
+            dirs = CLAUSE_DIRECTIONS
+        else:
+            args, kwargs = c[2], c[3]
+            impl_line, fk, typ = impl_format(t, args, kwargs)
+            py = cpython_format(t, args, kwargs)
+            h = hist["format"]
+            _bump(h["template_len"], min(len(t), 12))
+            if ml is not None:
+                if impl_line != ml.split(" pyparse=")[0]:
+                    agrees = False
+                    out["n_corr"] += 1
+                    if len(out["corr"]) < 3:
+                        out["corr"].append((payload_of(c), impl_line, ml, "Format.StrFormat.pa_format_check vs parse_format_string/_str_format_impl"))
+                else:
+                    out["validated"] += 1
+                v, fv = m.get("verdict"), m.get("full")
+                _bump(h["structural_verdicts"], v)
+                _bump(h["full_verdicts"], fv)
+                bad = False
+                for vv in (v, fv):
+                    if py[0] in ("ok", "raise") and ((vv == "raises" and py[0] != "raise") or (vv == "fine" and py[0] != "ok")):
+                        bad = True
+                if v == "FUEL" or fv == "FUEL" or bad:
+                    out["n_spec"] += 1
+                    if len(out["spec"]) < 3:
+                        out["spec"].append((payload_of(c)["python"], py, ml))
+                elif fv in ("raises", "fine") and py[0] in ("ok", "raise"):
+                    out["spec_validated"] += 1
+            if fk is None:
+                out["n_new"] += 1
+                if len(out["new"]) < 10:
+                    out["new"].append((payload_of(c), "checker crashed: " + impl_line, py))
+                continue
+            kinds = set(fk)
+            documented = FORMAT_LINT
+            nontrivial = "{" in t or "}" in t
+            g = guards_format(t, m) if m is not None else set()
+            dirs = FORMAT_CLAUSE_DIRECTIONS
+        reported = bool(kinds)
+        if keep_direct:
+            out["direct"][i] = reported
+        if py[0] not in ("ok", "raise"):
+            continue
+        _bump(h["verdicts"], py[0] + "/" + ("reported" if reported else "silent"))
+        if nontrivial:
+            key = (kind, t, repr(c[2:]))
+            if key not in seen:
+                seen.add(key)
+                out["distinct"] += 1
+        fail = None
+        if py[0] == "ok":
+            out["type_checked"] += 1
+            if typ != py[1]:
+                fail = (f"inferred type {typ}, actual result type {py[1]}", set())
+        if fail is None and py[0] == "raise" and not reported:
+            fail = ("CPython raises, nothing reported", {x for x in g if "missed" in dirs[x]})
+        elif fail is None and py[0] == "ok" and reported:
+            if kinds <= documented:
+                hist["lint_only"] += 1
+            else:
+                fail = ("reported " + ",".join(sorted(kinds)) + " but CPython formats fine", {x for x in g if "extra" in dirs[x]})
+        if fail is not None:
+            what, clauses = fail
+            # attribute only if the case falls under a listed clause AND the implementation behaved as the model predicts
+            cl = sorted(x for x in clauses if x in known_ids)
+            if cl and agrees:
+                _bump(out["known"], cl[0])
+            else:
+                out["n_new"] += 1
+                if len(out["new"]) < 10:
+                    out["new"].append((payload_of(c), what, py))
+    return out
+
+
+def _worker(job):
+    tier, stream, exe, known_ids, seed = job
+    rng = random.Random(seed)
+    cases = make_cases(tier, rng, stream)
+    res = {"n": 0}
+    # sub-chunks keep the memory of one worker bounded
+    total = None
+    for k in range(0, len(cases), 200000):
+        r = evaluate(cases[k : k + 200000], exe, known_ids)
+        if total is None:
+            total = r
+        else:
+            for key in ("n", "validated", "spec_validated", "type_checked", "distinct", "n_corr", "n_spec", "n_new"):
+                total[key] += r[key]
+            for key in ("corr", "spec", "new"):
+                total[key] = (total[key] + r[key])[:10]
+            merge_hist(total["known"], r["known"])
+            merge_hist(total["hist"], r["hist"])
+    return total if total is not None else evaluate([], exe, known_ids)
 
 
 def run(tier: str, replay: str | None = None):
@@ -694,232 +1050,124 @@ def run(tier: str, replay: str | None = None):
     if gen is not None:
         proof = lib.prove(PROP, gen, thorough=(tier == "thorough"))
 
-    # 2. cases: ("percent", template, args, _) | ("format", template, args, kwargs)
-    cases = []
+    # 2. the model: built on its own, so that a broken proof (e.g. a pinned constant that changed)
+    # does not take the correspondence and the known-finding attribution down with it
+    model_ok = gen is not None
+    if model_ok:
+        model_ok, _log = lib.coq_make(["theories/Format/Guards.vo", "theories/Format/FormatEval.vo"])
+    exe = None
+    if model_ok:
+        try:
+            exe = lib.ocaml_build("c17", "theories/Extract/ExtractC17.v", "c17_driver.ml")
+        except RuntimeError as ex:
+            rep.violation({"kind": "broken-correspondence", "correspondence": "extracted model (ocaml) failed to build", "detail": str(ex)[-1500:]}, no_failing_input=True)
+
+    findings = lib.load_known_findings(PROP)["findings"]
+    known_ids = {f["id"] for f in findings}
+
+    # 3. cases, implementation, oracle
     if replay:
         r = json.loads(Path(replay).read_text())
         c = dec_case(r["input"])
         if c.get("kind", "percent") == "percent":
-            cases.append(("percent", c["template"], c["args"], True))
+            main_cases = [("percent", c["template"], c["args"], True)]
         else:
-            cases.append(("format", c["template"], c["args"], c["kwargs"]))
+            main_cases = [("format", c["template"], c["args"], c["kwargs"])]
+        jobs = []
     else:
-        for c in load_corpus():
-            c = dec_case(c)
-            if c.get("kind", "percent") == "percent":
-                cases.append(("percent", c["template"], c["args"], True))
-            else:
-                cases.append(("format", c["template"], c["args"], c["kwargs"]))
-        n_struct = 8000 if tier == "quick" else 60000
-        for _ in range(n_struct):
-            t, a = gen_structured(rng)
-            cases.append(("percent", t, a, True))
-        maxlen = 4 if tier == "quick" else 5
-        scan_args = [(), (1,), {"a": 1}, 1]
-        for i, t in enumerate(exhaustive_templates(maxlen)):
-            cases.append(("percent", t, scan_args[i % 4], False))
-            cases.append(("percent", t.encode("ascii"), scan_args[(i + 1) % 4], False))
-        n_rand = 6000 if tier == "quick" else 80000
-        for _ in range(n_rand):
-            t = random_template_chars(rng, rng.choice([4, 5, 6, 7, 8, 10]))
-            a = rng.choice(scan_args + [(1, 1), {"a": 1, "b": "x"}])
-            if rng.random() < 0.25:
-                try:
-                    t = t.encode("ascii")
-                except UnicodeEncodeError:
-                    pass
-            cases.append(("percent", t, a, True))
-        # str.format
-        for _ in range(6000 if tier == "quick" else 60000):
-            t, args, kwargs = gen_format_structured(rng)
-            cases.append(("format", t, args, kwargs))
-        fargs = [([], {}), ([1], {}), ([1, "s"], {}), ([1], {"a": 2}), ([], {"a": [1, 2]})]
-        for i, t in enumerate(exhaustive_format_templates(4 if tier == "quick" else 5)):
-            args, kwargs = fargs[i % len(fargs)]
-            cases.append(("format", t, args, kwargs))
-        for _ in range(3000 if tier == "quick" else 40000):
-            t = "".join(rng.choice(F_ALPHABET * 2 + " 1b٣\n") for _ in range(rng.choice([5, 6, 7, 8, 10])))
-            args, kwargs = rng.choice(fargs)
-            cases.append(("format", t, args, kwargs))
-
-    # 3. model
-    # the model files are built on their own, so that a broken proof (e.g. a pinned constant
-    # that changed) does not take the correspondence and the known-finding attribution down with it
-    model_ok = gen is not None
-    if model_ok and (proof is None or not proof.ok):
-        model_ok, _log = lib.coq_make(["theories/Format/Guards.vo", "theories/Format/StrFormat.vo"])
-    model_lines = None
-    if model_ok:
-        try:
-            exe = lib.ocaml_build("c17", "theories/Extract/ExtractC17.v", "c17_driver.ml")
-            model_lines = lib.ocaml_run(exe, [enc_percent_case(c[1], c[2]) if c[0] == "percent" else enc_format_case(c[1], c[2], c[3]) for c in cases])
-        except RuntimeError as ex:
-            rep.violation({"kind": "broken-correspondence", "correspondence": "extracted model (ocaml) failed to build/run", "detail": str(ex)[-1500:]}, no_failing_input=True)
-
-    # 4. implementation + oracle + verdicts
-    corr_mismatch = []
-    spec_mismatch = []
-    failing = []
-    hist = {"percent": {"verdicts": {}, "args_kind": {}, "template_len": {}, "is_bytes": {0: 0, 1: 0}},
-            "format": {"verdicts": {}, "spec_verdicts": {}, "template_len": {}},
-            "lint_only": 0, "known": {}}
-    distinct = set()
-    validated = 0
-    spec_validated = 0
-    type_checked = 0
-    direct_reported = {}
-    for i, c in enumerate(cases):
-        kind, t = c[0], c[1]
-        ml = model_lines[i] if model_lines is not None else None
-        m = model_fields(ml) if ml is not None else None
-        if kind == "percent":
-            a = c[2]
-            is_bytes = isinstance(t, bytes)
-            impl_line, lint, acc, typ = impl_percent(t, a)
-            py = cpython_percent(t, a) if safe_for_cpython(t) and safe_args(t, a) else ("skipped", "")
-            h = hist["percent"]
-            h["is_bytes"][int(is_bytes)] += 1
-            h["template_len"][min(len(t), 12)] = h["template_len"].get(min(len(t), 12), 0) + 1
-            ak = "tuple" if isinstance(a, tuple) else "dict" if isinstance(a, dict) else "scalar"
-            h["args_kind"][ak] = h["args_kind"].get(ak, 0) + 1
-            if ml is not None:
-                if impl_line != ml.split(" pyscan=")[0]:
-                    corr_mismatch.append((i, impl_line, ml, "Format.Percent.pa_check_chars vs PercentFormatString.from_pattern/lint/accept"))
-                else:
-                    validated += 1
-                if py[0] in ("ok", "raise") and m.get("pyraises") is not None:
-                    if (py[0] == "raise") != (m["pyraises"] == "1"):
-                        spec_mismatch.append((i, py, ml))
-                    else:
-                        spec_validated += 1
-            if lint is None:
-                failing.append((i, "checker crashed: " + impl_line, py, set()))
-                continue
-            kinds = set(lint) | set(acc)
-            documented = set(DOCUMENTED_LINT)
-            if "LCombine" in kinds and not combine_justified(m):
-                # the documented rule is about mixing specifiers that need a mapping with ones that
-                # take a positional argument; a report without such a mix is not covered by it
-                documented.discard("LCombine")
-            nontrivial = "%" in (t.decode("latin-1") if is_bytes else t)
-            g = guards_percent(t, a, m) if m is not None else set()
-            dirs = CLAUSE_DIRECTIONS
+        main_cases = make_cases(tier, rng, "main")
+        nsh = 1 if tier == "quick" else 6
+        jobs = [(tier, (k, j, nsh), exe, known_ids, lib.seed()) for k in ("pct", "fmt", "spec") for j in range(nsh)]
+    try:
+        total = evaluate(main_cases, exe, known_ids, keep_direct=True)
+    except RuntimeError as ex:
+        rep.violation({"kind": "broken-correspondence", "correspondence": "extracted model (ocaml) failed to run", "detail": str(ex)[-1500:]}, no_failing_input=True)
+        total = evaluate(main_cases, None, known_ids, keep_direct=True)
+    direct_reported = total.pop("direct")
+    if jobs:
+        if tier == "quick":
+            parts = [_worker(j) for j in jobs]
         else:
-            args, kwargs = c[2], c[3]
-            impl_line, fk, typ = impl_format(t, args, kwargs)
-            py = cpython_format(t, args, kwargs)
-            h = hist["format"]
-            h["template_len"][min(len(t), 12)] = h["template_len"].get(min(len(t), 12), 0) + 1
-            if ml is not None:
-                if impl_line != ml.split(" pyparse=")[0]:
-                    corr_mismatch.append((i, impl_line, ml, "Format.StrFormat.pa_format_check vs parse_format_string/_str_format_impl"))
-                else:
-                    validated += 1
-                v = m.get("verdict")
-                h["spec_verdicts"][v] = h["spec_verdicts"].get(v, 0) + 1
-                if (v == "raises" and py[0] != "raise") or (v == "fine" and py[0] != "ok") or v == "FUEL":
-                    spec_mismatch.append((i, py, ml))
-                elif v in ("raises", "fine"):
-                    spec_validated += 1
-            if fk is None:
-                failing.append((i, "checker crashed: " + impl_line, py, set()))
-                continue
-            kinds = set(fk)
-            documented = FORMAT_LINT
-            nontrivial = "{" in t or "}" in t
-            g = guards_format(t, m) if m is not None else set()
-            dirs = FORMAT_CLAUSE_DIRECTIONS
-        reported = bool(kinds)
-        direct_reported[i] = reported
-        if py[0] not in ("ok", "raise"):
-            continue
-        verdict = py[0] + "/" + ("reported" if reported else "silent")
-        h["verdicts"][verdict] = h["verdicts"].get(verdict, 0) + 1
-        if nontrivial:
-            distinct.add((kind, t, repr(c[2:])))
-        if py[0] == "ok":
-            type_checked += 1
-            if typ != py[1]:
-                failing.append((i, f"inferred type {typ}, actual result type {py[1]}", py, set()))
-        if py[0] == "raise" and not reported:
-            failing.append((i, "CPython raises, nothing reported", py, {x for x in g if "missed" in dirs[x]}))
-        elif py[0] == "ok" and reported:
-            if kinds <= documented:
-                hist["lint_only"] += 1
-            else:
-                failing.append((i, "reported " + ",".join(sorted(kinds)) + " but CPython formats fine", py, {x for x in g if "extra" in dirs[x]}))
+            import multiprocessing as mp
 
-    def payload(i):
-        c = cases[i]
-        if c[0] == "percent":
-            return {"kind": "percent", "template": enc_case(c[1]), "args": enc_case(c[2]), "python": f"{c[1]!r} % {c[2]!r}"}
-        return {"kind": "format", "template": c[1], "args": enc_case(list(c[2])), "kwargs": enc_case(dict(c[3])),
-                "python": f"{c[1]!r}.format(*{c[2]!r}, **{c[3]!r})"}
+            with mp.get_context("fork").Pool(6) as pool:
+                parts = pool.map(_worker, jobs, chunksize=1)
+        for r in parts:
+            for key in ("n", "validated", "spec_validated", "type_checked", "distinct", "n_corr", "n_spec", "n_new"):
+                total[key] += r[key]
+            for key in ("corr", "spec", "new"):
+                total[key] = (total[key] + r[key])[:10]
+            merge_hist(total["known"], r["known"])
+            merge_hist(total["hist"], r["hist"])
 
-    # end-to-end through NameCheckVisitor on a sample (corpus + every k-th case)
-    e2e_checked = 0
-    e2e_mismatch = []
+    # 4. end to end through NameCheckVisitor: reports and revealed types, plus f-strings
+    e2e = (0, [], 0, [])
+    n_fstrings = 0
     if not replay:
-        step = max(1, len(cases) // (500 if tier == "quick" else 3000))
-        sample = [(i, cases[i]) for i in list(range(0, min(60, len(cases)))) + list(range(60, len(cases), step)) if i in direct_reported]
+        step = max(1, len(main_cases) // (500 if tier == "quick" else 3000))
+        sample = [(i, main_cases[i]) for i in list(range(0, min(100, len(main_cases)))) + list(range(100, len(main_cases), step)) if i in direct_reported]
+        for _ in range(300 if tier == "quick" else 3000):
+            src = gen_fstring(rng)
+            if src is not None:
+                n_fstrings += 1
+                sample.append((-1, ("fstring", src)))
         try:
-            e2e_checked, e2e_mismatch = end_to_end(sample, direct_reported)
+            e2e = end_to_end(sample, direct_reported)
         except Exception as ex:  # noqa
             rep.harness_error(f"end-to-end stream failed: {type(ex).__name__}: {ex}")
+    e2e_checked, e2e_mismatch, e2e_types, e2e_type_mismatch = e2e
 
-    findings = lib.load_known_findings(PROP)["findings"]
-    known_ids = {f["id"] for f in findings}
-    corr_idx = {ci for ci, _, _, _ in corr_mismatch}
-    new_failures = []
-    for i, what, py, clauses in failing:
-        # attribute only if the case falls under a listed clause AND the implementation behaved as the model predicts
-        agrees = model_lines is not None and i not in corr_idx
-        cl = sorted(x for x in clauses if x in known_ids)
-        if cl and agrees:
-            hist["known"][cl[0]] = hist["known"].get(cl[0], 0) + 1
-            rep.known(cl[0], next(f["what"] for f in findings if f["id"] == cl[0]))
-        else:
-            new_failures.append((i, what, py))
-    for i, what, py in new_failures[:10]:
-        rep.violation({"kind": "failing-input", "input": payload(i), "observed": what, "expected": "report iff CPython raises (outside the documented lint rules); result type = actual type",
+    # 5. verdicts
+    for fid, n in total["known"].items():
+        rep.known(fid, next(f["what"] for f in findings if f["id"] == fid))
+    for pl, what, py in total["new"][:10]:
+        rep.violation({"kind": "failing-input", "input": pl, "observed": what, "expected": "report iff CPython raises (outside the documented lint rules); result type = actual type",
                        "cpython": list(py), "how_to_run": "./check C17 --replay <this file>"})
-    found_input = bool(new_failures)
-    if spec_mismatch:
-        i, py, ml = spec_mismatch[0]
+    for ci, expr, rv, actual in e2e_type_mismatch[:5]:
+        rep.violation({"kind": "failing-input", "input": {"kind": "expression", "python": expr}, "observed": {"revealed": [list(x) for x in rv]},
+                       "expected": actual, "how_to_run": "reveal_type(<expression>) under pyanalyze vs eval under CPython"})
+    found_input = bool(total["new"]) or bool(e2e_type_mismatch)
+    if total["spec"]:
+        expr, py, ml = total["spec"][0]
         # the specification model disagrees with the interpreter: the harness is wrong, not pyanalyze
-        rep.harness_error(f"specification model disagrees with CPython on {payload(i)['python']}: cpython={py} model={ml} ({len(spec_mismatch)} cases)")
-    if corr_mismatch and not found_input:
-        i, il, ml, name = corr_mismatch[0]
-        rep.violation({"kind": "broken-correspondence", "correspondence": name,
-                       "input": payload(i), "observed": il, "model": ml, "mismatches": len(corr_mismatch)}, no_failing_input=True)
+        rep.harness_error(f"specification model disagrees with CPython on {expr}: cpython={py} model={ml} ({total['n_spec']} cases)")
+    if total["corr"] and not found_input:
+        pl, il, ml, name = total["corr"][0]
+        rep.violation({"kind": "broken-correspondence", "correspondence": name, "input": pl, "observed": il, "model": ml, "mismatches": total["n_corr"]}, no_failing_input=True)
     if e2e_mismatch and not found_input:
         i, line, codes, want = e2e_mismatch[0]
         rep.violation({"kind": "broken-correspondence", "correspondence": "direct calls (check_string_format/_str_format_impl) vs NameCheckVisitor end to end",
-                       "input": payload(i), "observed": {"statement": line, "codes": codes}, "expected_reported": want, "mismatches": len(e2e_mismatch)}, no_failing_input=True)
+                       "input": payload_of(main_cases[i]), "observed": {"statement": line, "codes": codes}, "expected_reported": want, "mismatches": len(e2e_mismatch)}, no_failing_input=True)
     if broken_translation and not found_input:
         rep.violation({"kind": "broken-obligation", "theorem": "Gen/FormatRe.v (translator)", "detail": broken_translation}, no_failing_input=True)
     if proof is not None and not proof.ok and not found_input:
         rep.violation({"kind": "broken-obligation", "theorem": "; ".join(proof.broken), "log": proof.log[-1500:]}, no_failing_input=True)
 
+    hist = total["hist"]
+    hist["known"] = total["known"]
     rep.coverage.update(
-        evaluations=len(cases),
-        distinct_nontrivial=len(distinct),
+        evaluations=total["n"],
+        distinct_nontrivial=total["distinct"],
         rule="a case = (template, literal args); non-trivial = the template contains '%' (resp. a brace); streams: corpus, structured (specifier/field-built templates with "
-        "matching and perturbed args), exhaustive short templates over a 14-symbol (%) / 11-symbol (format) alphabet, random longer templates",
-        samples=[payload(i)["python"] for i in range(0, len(cases), max(1, len(cases) // 6))][:8],
-        traces_validated_against_impl=validated,
-        spec_validated_against_cpython=spec_validated,
-        result_types_checked=type_checked,
+        "matching and perturbed args; str.format fields with attribute/index paths, conversions and format specs over the literal universe), exhaustive short templates over a "
+        "14-symbol (%) / 11-symbol (format) alphabet, exhaustive '{:spec}' over a 21-symbol spec alphabet x 10 kinds of object, random longer templates, f-strings (end to end only)",
+        samples=[payload_of(main_cases[i])["python"] for i in range(0, len(main_cases), max(1, len(main_cases) // 6))][:8],
+        traces_validated_against_impl=total["validated"],
+        spec_validated_against_cpython=total["spec_validated"],
+        result_types_checked=total["type_checked"],
         end_to_end_statements=e2e_checked,
         end_to_end_mismatches=len(e2e_mismatch),
+        end_to_end_revealed_types_checked=e2e_types,
+        end_to_end_type_mismatches=len(e2e_type_mismatch),
+        fstrings=n_fstrings,
         input_distribution=hist,
-        correspondence_mismatches=len(corr_mismatch),
-        spec_mismatches=len(spec_mismatch),
-        exhaustive_template_length={"percent": (4 if tier == "quick" else 5), "format": (4 if tier == "quick" else 5)},
+        correspondence_mismatches=total["n_corr"],
+        spec_mismatches=total["n_spec"],
+        exhaustive_template_length={"percent": (4 if tier == "quick" else 6), "format": (4 if tier == "quick" else 6), "format_spec": (2 if tier == "quick" else 4)},
     )
-    rep.assumptions = ["CPython 3.12 `%` operator and str.format as oracle", "translator harness/translate/formatre.py", "extraction (ExtrOcamlBasic)"]
+    rep.assumptions = ["CPython 3.12 `%` operator, str.format, format() and f-strings as oracle", "translators harness/translate/formatre.py, formatattrs.py", "extraction (ExtrOcamlBasic)"]
     return rep.finish(
         proof,
         "coq_makefile + make theories/Properties/C17.vo; coqc theories/Properties/C17.v (Print Assumptions)" + ("; coqchk -o" if tier == "thorough" else ""),
-        ["Coq 8.16.1 kernel", "translator harness/translate/formatre.py", "OCaml extraction (ExtrOcamlBasic) + ocaml/c17_driver.ml", "correspondence harness/c17.py", "CPython 3.12 as oracle"],
+        ["Coq 8.16.1 kernel", "translators harness/translate/formatre.py and formatattrs.py", "OCaml extraction (ExtrOcamlBasic) + ocaml/c17_driver.ml", "correspondence harness/c17.py", "CPython 3.12 as oracle"],
     )
